@@ -36,7 +36,7 @@ from .. import PY, REPO, VERIF
 from ..repo import child_env
 from ..tlaval import iter_dump, parse
 from ..tlc import MachineryError, run_tlc
-from ..traces import validate
+from ..traces import BatchResult, TraceVerdict
 
 NWORK = 12
 FIX_DOCX = "sharepoint2text/tests/resources/modern_ms/headings.docx"
@@ -85,6 +85,37 @@ def _run_workers(ctx, kind, items, extra=None):
     return res
 
 
+def validate(spec, cfg, traces, *, scratch, parallel=12, min_chunk=100, env=None, timeout=1500):
+    """Batch trace validation for SINGLE-EVENT traces (same convention as mbv.traces.validate, which
+    re-runs every rejected trace alone to find the matched prefix -- not needed when a trace is one
+    event, and far too slow when a defect rejects hundreds of traces)."""
+    from concurrent.futures import ThreadPoolExecutor
+    if not traces:
+        return BatchResult([], 0, 0, 0.0)
+    n = max(1, min(parallel, len(traces) // min_chunk or 1))
+    size = (len(traces) + n - 1) // n
+    chunks = [traces[i:i + size] for i in range(0, len(traces), size)]
+
+    def one(ci):
+        f = scratch / f"tr-{spec}-{ci}-{time.time_ns()}.json"
+        f.write_text(json.dumps(chunks[ci]))
+        e = dict(env or {})
+        e.update(TRACE_FILE=str(f), MBV_PROGRESS="0")
+        r = run_tlc(spec, cfg, scratch=scratch, workers=1, timeout=timeout, env=e, expect_fail=True)
+        f.unlink(missing_ok=True)
+        acc = {int(x) for x in re.findall(r'<<"ACCEPT", (\d+)>>', r.output)}
+        return [TraceVerdict(str(t.get("id")), (k in acc), len(t["ev"]) if k in acc else 0, len(t["ev"]))
+                for k, t in enumerate(chunks[ci], 1)], r
+    verdicts, states, distinct, wall = [], 0, 0, 0.0
+    with ThreadPoolExecutor(max_workers=len(chunks)) as ex:
+        for vs, r in ex.map(one, range(len(chunks))):
+            verdicts += vs
+            states += r.generated
+            distinct += r.distinct
+            wall = max(wall, r.wall_s)
+    return BatchResult(verdicts, states, distinct, wall)
+
+
 def _tlc_expected(ctx, traces):
     """Ask TLC for Mail!Expected(m) of a few traces (diagnostics for the replay file only)."""
     f = ctx.scratch / f"exp-{len(traces)}-{time.time_ns()}.json"
@@ -96,9 +127,11 @@ def _tlc_expected(ctx, traces):
     except MachineryError:
         return {}
     out = {}
-    for m in re.finditer(r'<<"EXPECTED", (\d+), (\[.*?\])>>\s*$', r.output, re.M | re.S):
+    from ..tlaval import _P
+    for mm in re.finditer(r'<<\s*"EXPECTED",', r.output):
         try:
-            out[int(m.group(1))] = _plain(parse(m.group(2)))
+            val = _P(r.output, mm.start()).value()
+            out[int(val[1])] = _plain(val[2])
         except Exception:
             pass
     return out
@@ -107,7 +140,8 @@ def _tlc_expected(ctx, traces):
 def _diff_fields(exp, obs):
     if not exp or not isinstance(obs, dict):
         return ["?"]
-    d = [k for k in ("subj", "from", "to", "cc", "bcc", "rt", "date", "mid", "irt", "plain", "html") if exp.get(k) != obs.get(k)]
+    d = [k for k in ("subj", "from", "to", "cc", "bcc", "rt", "date", "mid", "irt", "plain", "html") if exp.get(k) != obs.get(k)
+         and not (k == "plain" and obs.get(k, [""])[0] == "plainesc")]       # DC4 (diagnostic only)
     ea, oa = exp.get("atts", []), [a for a in obs.get("atts", []) if a["bytes"][0] != "inline"]
     if len(ea) != len(oa):
         d.append(f"atts(count {len(oa)} for {len(ea)})")
@@ -161,7 +195,7 @@ def run(ctx):
     msgs = sorted((_plain(s["m"]) for s in iter_dump(mdump)), key=lambda m: json.dumps(m, sort_keys=True))
     if len(msgs) != r.distinct:
         raise MachineryError(f"MailGen dump has {len(msgs)} states, TLC reported {r.distinct}")
-    ctx.log(f"{len(msgs)} abstract messages, {len(seqs)} line-class sequences")
+    ctx.log(f"{len(msgs)} abstract messages, {len(seqs)} line-class sequences (TLC part {time.time() - ev.t0:.1f}s)")
 
     # ------------------------------------------------------------------ 3. replay
     nvar = 3 if ctx.thorough else 1
@@ -177,14 +211,15 @@ def run(ctx):
     traces, meta = [], []
     for it, o in zip(items, mail_out):
         for path, e in (("eml", o["eml"]), ("mbox", o["mbox"])):
-            traces.append({"id": f"{it['id']}:{path}", "hdr": {"m": it["m"]}, "ev": [e]})
+            traces.append({"id": f"{it['id']}:{path}", "hdr": {"m": it["m"], "kind": "msg"}, "ev": [e]})
             meta.append((it, path, e, o))
     for f, o in zip(FIXTURES, fix_out):
-        traces.append({"id": f"fixture:{f[0]}", "hdr": {"m": "fixture"}, "ev": o["ev"]})
+        traces.append({"id": f"fixture:{f[0]}", "hdr": {"m": "fixture", "kind": "fixture"}, "ev": o["ev"]})
         meta.append(({"id": f[0], "m": "fixture"}, "fixture", o["ev"], o))
     tcfg = "SPECIFICATION TraceSpec\nCONSTRAINT TraceAccept\nCONSTANTS Deviations = {}\n"
     br = validate("MailTrace", tcfg, traces, scratch=ctx.scratch, parallel=12, min_chunk=100, env={"MBV_EXPECT": "0"})
     ev.tlc_counts("MailTrace: observations of both parsers validated against Mail!Accept", br.distinct, br.states, br.wall_s)
+    ctx.log(f"MailTrace validated {len(traces)} traces in {br.wall_s:.1f}s")
     rej = [i for i, tv in enumerate(br.verdicts) if not tv.accepted]
     v.ok(len(traces) - len(rej))
     ev.replayed(len(traces))
@@ -239,20 +274,23 @@ def run(ctx):
                    "eml_head": o.get("head", "")[:300], "eml_obs": o["eml"].get("obs", o["eml"]) if isinstance(o["eml"], dict) else None})
 
     # ------------------------------------------------------------------ 4b. validate mailboxes
-    ltraces = [{"id": f"L{i}", "hdr": {"lines": it["lines"], "fin": it["fin"], "eol": it["eol"]}, "ev": o["ev"]}
-               for i, (it, o) in enumerate(zip(line_items, line_out))]
+    ltraces, lmeta = [], []
+    for i, (it, o) in enumerate(zip(line_items, line_out)):
+        for e in o["ev"]:
+            ltraces.append({"id": f"L{i}:{e['a']}", "hdr": {"lines": it["lines"], "fin": it["fin"], "eol": it["eol"]}, "ev": [e]})
+            lmeta.append((it, o, e))
     lcfg = "SPECIFICATION TraceSpec\nCONSTRAINT TraceAccept\nCONSTANTS MaxLen = 6\n Deviations = {}\n"
     brl = validate("MboxTrace", lcfg, ltraces, scratch=ctx.scratch, parallel=12, min_chunk=300)
     ev.tlc_counts("MboxTrace: split blocks and results of concretised line-class mailboxes validated", brl.distinct, brl.states, brl.wall_s)
+    ctx.log(f"MboxTrace validated {len(ltraces)} traces in {brl.wall_s:.1f}s")
     ev.replayed(len(ltraces))
     lgroups = {}
-    for it, o, tv in zip(line_items, line_out, brl.verdicts):
+    for (it, o, e), tv in zip(lmeta, brl.verdicts):
         if tv.accepted:
             v.ok(1)
             if "Sep" in it["lines"]:
                 ev.nontrivial(("L", tuple(it["lines"]), it["fin"], it["eol"]))
             continue
-        e = o["ev"][tv.reached] if tv.reached < len(o["ev"]) else o["ev"][-1]
         if e["a"] == "Split":
             sig, what = "split", f"_split_mbox_messages: blocks {e['split']} are not the messages of line classes {it['lines']}"
         elif e.get("exc"):
